@@ -239,7 +239,7 @@ var ruleEsc = &Rule{
 						}
 					}
 					if sc := c.Call.StaticCallee(); sc != nil && takesOnly(sc, lexT) &&
-						sc.Name() != "next" && sc.Signature.Results().Len() == 1 {
+						sc.Name() != "next" && sc.Signature.Results().Len() >= 1 {
 						sp[*letter] = sc.Name()
 					}
 				}
@@ -408,6 +408,96 @@ var ruleEsc = &Rule{
 				out.viol(key, p.pos(escFn.Pos()), fnName(escFn), fmt.Sprintf("the printer (%s) can write %s but the lexer has no handler for \\%c: it reads the letter literally", strings.TrimSpace(origin), f, rune(L)))
 			}
 		}
+		// the code points written as \xNN lie within what the lexer's \x
+		// decoder accepts: the largest value the branch tests allow at the
+		// printer's write against the largest the tests allow where the
+		// decoder hands its value on (two hexadecimal digits: 0xff at most)
+		if special['x'] != "" {
+			var dec *ssa.Function
+			for fn := range p.AllFns {
+				if fnPkgPath(fn) == pkgParser && fn.Blocks != nil && fn.Signature.Recv() != nil && namedOf(fn.Signature.Recv().Type()) == lexT && fn.Name() == special['x'] {
+					dec = fn
+				}
+			}
+			lexHi, lexOK := int64(-1), false
+			if dec != nil {
+				for _, b := range dec.Blocks {
+					for _, ins := range b.Instrs {
+						c, ok := ins.(*ssa.Call)
+						if !ok {
+							continue
+						}
+						q := calleeQualified(&c.Call)
+						if (q != "strings.WriteRune" && q != "strings.WriteByte") || len(c.Call.Args) != 2 {
+							continue
+						}
+						if iv, ok := p.rangeAtBlock(c.Call.Args[1], b); ok {
+							lexHi, lexOK = max(lexHi, iv.hi), true
+						} else {
+							lexHi, lexOK = 0xff, true
+						}
+					}
+				}
+				if !lexOK {
+					// the decoder hands the value back to its caller
+					for _, r := range returnsOf(dec) {
+						if len(r.Results) == 0 {
+							continue
+						}
+						if _, isC := r.Results[0].(*ssa.Const); isC {
+							continue
+						}
+						if bt, ok := r.Results[0].Type().Underlying().(*types.Basic); !ok || bt.Info()&types.IsInteger == 0 {
+							continue
+						}
+						if iv, ok := p.rangeAtBlock(r.Results[0], r.Instr.Block()); ok {
+							lexHi, lexOK = max(lexHi, iv.hi), true
+						}
+					}
+				}
+			}
+			for _, qf := range quoteFns {
+				for _, b := range qf.Blocks {
+					for _, ins := range b.Instrs {
+						c, ok := ins.(*ssa.Call)
+						if !ok || len(c.Call.Args) < 2 {
+							continue
+						}
+						fi := -1
+						for i := range c.Call.Args {
+							if fs, ok := constStringArg(c, i); ok && strings.HasPrefix(fs, `\x%`) {
+								fi = i
+							}
+						}
+						if fi < 0 || fi+1 >= len(c.Call.Args) {
+							continue
+						}
+						args := variadicArgs(c.Call.Args[fi+1])
+						if len(args) == 0 {
+							continue
+						}
+						v := args[0]
+						if mi, ok := v.(*ssa.MakeInterface); ok {
+							v = mi.X
+						}
+						key := "code points written as \\xNN are accepted by the lexer's \\x decoder (" + fnName(qf) + ")"
+						iv, ok := p.rangeAtBlock(v, b)
+						switch {
+						case !lexOK:
+							out.ok(key, p.pos(c.Pos()), fnName(qf), "the decoder's accepted range could not be read off its tests: not compared")
+						case !ok || iv.hi > lexHi:
+							hi := "no upper bound"
+							if ok {
+								hi = fmt.Sprintf("U+%04X", iv.hi)
+							}
+							out.viol(key, p.pos(c.Pos()), fnName(qf), fmt.Sprintf("the printer writes \\xNN for code points up to %s, the lexer's %s accepts \\xNN up to U+%04X only: such a character in a key or string prints as a path that does not parse back", hi, dec.Name(), lexHi))
+						default:
+							out.ok(key, p.pos(c.Pos()), fnName(qf), fmt.Sprintf("written up to U+%04X, accepted up to U+%04X", iv.hi, lexHi))
+						}
+					}
+				}
+			}
+		}
 		return out
 	},
 }
@@ -418,6 +508,12 @@ var ruleEsc = &Rule{
 func runeWritten(c *ssa.Call, depth int) (ssa.Value, bool) {
 	if calleeQualified(&c.Call) == "strings.WriteRune" && len(c.Call.Args) == 2 {
 		return c.Call.Args[1], true
+	}
+	// WriteByte of an ASCII constant writes that very character
+	if calleeQualified(&c.Call) == "strings.WriteByte" && len(c.Call.Args) == 2 {
+		if k, ok := constInt(c.Call.Args[1]); ok && k >= 0 && k < 0x80 {
+			return c.Call.Args[1], true
+		}
 	}
 	g := c.Call.StaticCallee()
 	if g == nil || depth > 2 || fnPkgPath(g) != pkgParser || g.Blocks == nil || len(g.Blocks) != 1 {
@@ -693,20 +789,37 @@ var ruleMarshal = &Rule{
 				out.undecided(key, "-", "", "anchor unresolved")
 				continue
 			}
-			good := true
-			for _, r := range returnsOf(m.fn) {
-				switch {
-				case viaString(r.Results[0], 0) && isNilConst(stripConv(r.Results[1])):
-				default:
-					// both results of a sibling that satisfies the rule
-					c0, i0 := callOf(r.Results[0])
-					c1, i1 := callOf(r.Results[1])
-					if c0 != nil && c0 == c1 && i0 == 0 && i1 == 1 && (c0.Call.StaticCallee() == mb || c0.Call.StaticCallee() == mt) {
-						continue
+			var encodes func(fn *ssa.Function, depth int) bool
+			encodes = func(fn *ssa.Function, depth int) bool {
+				rets := returnsOf(fn)
+				for _, r := range rets {
+					if len(r.Results) != 2 {
+						return false
 					}
-					good = false
+					switch {
+					case viaString(r.Results[0], 0) && isNilConst(stripConv(r.Results[1])):
+					default:
+						// both results of a sibling that satisfies the rule, or
+						// of a helper of the package that is handed the path and
+						// nothing else and satisfies it (`return encode(path)`)
+						c0, i0 := callOf(r.Results[0])
+						c1, i1 := callOf(r.Results[1])
+						if c0 == nil || c0 != c1 || i0 != 0 || i1 != 1 {
+							return false
+						}
+						sc := c0.Call.StaticCallee()
+						if sc == mb || sc == mt {
+							continue
+						}
+						if sc == nil || depth > 1 || sc.Blocks == nil || fnPkgPath(sc) != pkgPath || len(c0.Call.Args) != 1 || len(fn.Params) == 0 ||
+							c0.Call.Args[0] != ssa.Value(fn.Params[0]) || !encodes(sc, depth+1) {
+							return false
+						}
+					}
 				}
+				return len(rets) > 0
 			}
+			good := encodes(m.fn, 0)
 			if good {
 				out.ok(key, p.pos(m.fn.Pos()), fnName(m.fn), "returns the canonical text (or its sibling's result) and a nil error")
 			} else {
@@ -798,6 +911,54 @@ var theProg *Prog
 func (p *Prog) hexDigitsAfter(c *ssa.Call, prefix string) (string, bool) {
 	if c == nil || c.Block() == nil {
 		return "their source is not found", false
+	}
+	// the digits written one by one right after the prefix, each looked up in
+	// a constant table of the sixteen hexadecimal digits (`buf.WriteByte(
+	// lowerHex[r>>4]); buf.WriteByte(lowerHex[r&0xf])`): their number is the
+	// number the lexer reads
+	{
+		after, n := false, 0
+		for _, ins := range c.Block().Instrs {
+			if ins == ssa.Instruction(c) {
+				after = true
+				continue
+			}
+			if !after {
+				continue
+			}
+			wc, ok := ins.(*ssa.Call)
+			if !ok {
+				continue
+			}
+			if calleeQualified(&wc.Call) != "strings.WriteByte" || len(wc.Call.Args) != 2 {
+				break
+			}
+			var tx ssa.Value
+			switch lk := wc.Call.Args[1].(type) {
+			case *ssa.Lookup:
+				tx = lk.X
+			case *ssa.Index:
+				tx = lk.X
+			}
+			if tx == nil {
+				break
+			}
+			tbl, ok := tx.(*ssa.Const)
+			if !ok || tbl.Value == nil || tbl.Value.Kind() != constant.String {
+				break
+			}
+			if t := strings.ToLower(constant.StringVal(tbl.Value)); t != "0123456789abcdef" {
+				break
+			}
+			n++
+		}
+		want := map[string]int{`\x`: 2, `\u`: 4}[prefix]
+		if n > 0 {
+			if want != 0 && n == want {
+				return fmt.Sprintf("%d digits, each from a table of the sixteen hexadecimal digits", n), true
+			}
+			return fmt.Sprintf("writes %d hexadecimal digits after it", n), false
+		}
 	}
 	var writer *ssa.Call
 	if g := c.Call.StaticCallee(); g != nil && inModule(g) && !c.Call.IsInvoke() {
